@@ -166,11 +166,14 @@ func enumerate(thorough bool) []pairSpec {
 		m = 3
 	}
 	full := gen(m)
-	lite := gen(m - 1)
 	specs := []pairSpec{}
-	// reconcile: local-only suffix up to m, remote-only suffix up to m-1
+	// reconcile: quick = local-only suffix <= 2 x remote-only suffix <= 1;
+	// thorough = (local <= 3 x remote <= 1) and (local <= 2 x remote <= 2)
 	for _, l := range full {
-		for _, r := range lite {
+		for _, r := range gen(2) {
+			if len(r) > 1 && (!thorough || len(l) > 2) {
+				continue
+			}
 			specs = append(specs, pairSpec{Op: "reconcile", Local: l, Remote: r})
 		}
 	}
@@ -183,10 +186,10 @@ func enumerate(thorough bool) []pairSpec {
 	// sync, pull side: remote-only suffix up to m, local log has nothing new,
 	// local reference states for the references the remote suffix names
 	states := []string{"equal", "ahead", "diverged", "absent"}
-	addStates := func(l, r []string) {
+	addStates := func(l, r []string, product bool) {
 		named := namedRefs(r)
 		combos := []map[string]string{{}}
-		if thorough && len(named) == 2 {
+		if product && len(named) == 2 {
 			all := append([]string{""}, states...)
 			combos = combos[:0]
 			for _, sa := range all {
@@ -218,15 +221,16 @@ func enumerate(thorough bool) []pairSpec {
 		if len(r) == 0 {
 			continue
 		}
-		addStates([]string{}, r)
+		// one reference varied at a time; thorough: all combinations for suffixes <= 2
+		addStates([]string{}, r, thorough && len(r) <= 2)
 	}
-	// sync, diverged logs: a small local-only suffix against remote suffixes up to m-1
+	// sync, diverged logs: a one-entry local-only suffix against remote suffixes up to m-1
 	for _, l := range [][]string{{"rA"}, {"rB"}, {"pA"}, {"a+S"}} {
-		for _, r := range lite {
+		for _, r := range gen(m - 1) {
 			if len(r) == 0 {
 				continue
 			}
-			addStates(l, r)
+			addStates(l, r, false)
 		}
 	}
 	return specs
@@ -1351,8 +1355,7 @@ func TestC15(t *testing.T) {
 		m = 3
 	}
 	col.Bound("max_suffix_len", m)
-	col.Bound("reconcile_remote_suffix_len", m-1)
-	col.Rule("all pairs over the suffix alphabet {rA, rB (reference entry at a new commit), pA (propagation entry for refA), a+T / a-T (annotation skip true/false naming T = first shared entry | an earlier non-annotation entry of the same suffix | both)} on top of a shared 2-entry prefix: reconcile = every local-only suffix of length <= %d x every remote-only suffix of length <= %d; sync push = every local-only suffix <= %d x overwriteLocalRefs; sync pull = every non-empty remote-only suffix <= %d x local state of the references it names (as recorded/behind, equal, ahead, diverged, absent; one reference varied at a time in quick, full product in thorough) x overwriteLocalRefs; sync with diverged logs = local-only {rA | rB | pA | a+S} x non-empty remote-only suffix <= %d x states x flag. Each pair is built on two real git repositories and one API call is executed; a class is (operation, local suffix shape, remote suffix shape, reference states, flag, outcome)", m, m-1, m, m, m-1)
+	col.Rule("all pairs over the suffix alphabet {rA, rB (reference entry at a new commit), pA (propagation entry for refA), a+T / a-T (annotation skip true/false naming T = first shared entry | an earlier non-annotation entry of the same suffix | both)} on top of a shared 2-entry prefix. reconcile: quick = every local-only suffix of length <= 2 x every remote-only suffix of length <= 1; thorough = (local <= 3 x remote <= 1) and (local <= 2 x remote <= 2). sync push: every local-only suffix <= %d x overwriteLocalRefs. sync pull: every non-empty remote-only suffix <= %d x local state of the references it names (as recorded/behind, equal, ahead, diverged, absent; one reference varied at a time, in thorough all combinations for suffixes <= 2) x overwriteLocalRefs. sync with diverged logs: local-only {rA | rB | pA | a+S} x non-empty remote-only suffix <= %d x states x flag. Each pair is built on two real git repositories and one API call is executed; a class is (operation, local suffix shape, remote suffix shape, reference states, flag, outcome)", m, m, m-1)
 	col.Assume("policy-free repositories (Sync's propagation step finds no policy and records nothing); unsigned entries; local file transport between the clone and the bare remote")
 	col.Assume("branch references of each side are in the state its own log records unless a local reference state is enumerated explicitly")
 	col.Assume("certain conflict = both suffixes hold an unskipped reference or propagation entry for one reference; when the overlap involves only skipped entries both refusal (changing nothing) and a faithful replay are accepted")
